@@ -18,14 +18,24 @@ from ..templates import HOLE, emits_in, eval_templates
 
 QUOTES = ("'", '"')
 # sites where the interpolated text cannot contain the fixed delimiter, by construction (reason confirmed by reading)
+# construction sites where the interpolated text cannot contain the fixed quote; keyed by the *owner* (class or module) of the
+# site, not by the function, so that extracting / renaming a helper inside the owner does not lapse the entry
 STRLIT_SAFE = {
-    ("core_codemods.sql_parameterization.SQLQueryParameterizationTransformer._remove_literal_and_gather_extra", "'"):
-        "extra_raw_value is the text between a SQL quote (') the code split on and the expression: it cannot contain '",
-    ("core_codemods.sql_parameterization.SQLQueryParameterizationTransformer._build_param_element", "'"):
-        "pieces are raw values taken between SQL quote delimiters ('), so they cannot contain '",
-    ("codemodder.dependency_management.setup_py_writer.SetupPyAddDependencies.add_dependencies_to_arg", '"'):
+    ("core_codemods.sql_parameterization.SQLQueryParameterizationTransformer", "'"):
+        "the pieces are raw values taken between SQL quote delimiters (') the code split on: they cannot contain '",
+    ("codemodder.dependency_management.setup_py_writer", '"'):
         "requirement strings come from the Dependency constants of codemodder/dependency.py (checked below: none contains a quote)",
 }
+
+
+def _strlit_safe(fn, q):
+    owners = [fn.cls.qname] if fn.cls is not None else []
+    owners.append(fn.module.name)
+    for o in owners:
+        r = STRLIT_SAFE.get((o, q))
+        if r:
+            return r
+    return None
 
 
 def _literal_sites(ctx):
@@ -105,7 +115,7 @@ def rule_strlit(ctx, rep):
             if q is None:
                 rep.instance("R-STRLIT", fn.qname, where, True, detail="no-fixed-delimiter", template=t[:40])
                 continue
-            safe = STRLIT_SAFE.get((fn.qname, q))
+            safe = _strlit_safe(fn, q)
             # a dominating guard that mentions the quote character
             must = ctx.flow(fn).must_at(c)
             guarded = any(isinstance(e, ast.Compare) and any(isinstance(x, ast.Constant) and x.value == q for x in ast.walk(e)) for pol, e in fact_exprs(must))
